@@ -65,6 +65,23 @@ func runC04(c *eng.Ctx) {
 		}
 		c.R.End(idx, eng.Hash("funckind", fk.name), n > 0)
 	}
+	// (a') overlapping resolutions of constructors that share their code pointer
+	for _, kind := range []string{"closures", "method-values"} {
+		for _, life := range []godi.Lifetime{godi.Scoped, godi.Transient} {
+			idx, mine := cr.next()
+			if !mine {
+				continue
+			}
+			c.R.Begin(idx)
+			fs, n := overlappingSharedCode(kind, life)
+			c.R.Count("funckind_resolutions", int64(n))
+			c.R.Count("funckind_overlapping_resolutions", int64(n))
+			for _, f := range fs {
+				c.R.Violation(eng.Violation{Prop: "C04", Clause: f.Clause, Sig: "C04/" + f.Clause + ":" + f.Sig, Case: idx, CaseID: "funckind-overlap-" + kind, Detail: f.Detail})
+			}
+			c.R.End(idx, eng.Hash("funckind-overlap", kind, life), n > 0)
+		}
+	}
 	// (b) pairs of forms
 	forms := formCatalogue()
 	for a := 0; a < len(forms); a++ {
@@ -428,6 +445,33 @@ func runC07(c *eng.Ctx) {
 			c.R.ExhaustiveProgress("all DAGs on 4 services x 81 lifetime assignments x 5 uniform edge forms", total4, hi-lo)
 		}
 		c.R.End(idx, eng.Hash("c07-dag4", blk, c.Seed), false)
+	}
+	// --- directed: registrations with several identities of which one was removed again ---
+	rm := func(t, key string) Reg { return Reg{Remove: true, RmType: t, RmKey: key, Tail: true} }
+	var directed []*Spec
+	for _, life := range []godi.Lifetime{godi.Singleton, godi.Transient} {
+		for _, which := range []int{0, 1} {
+			mr := []string{"K2", "K3"}[which]
+			directed = append(directed,
+				&Spec{Regs: []Reg{mkReg("Leaf_K0_a", godi.Scoped), mkReg("MR_K2K3e", life), rm(mr, "")}},
+				&Spec{Regs: []Reg{mkReg("Leaf_K0_a", godi.Scoped), mkReg("OutP_K2K3_d", life), rm(mr, "")}},
+				&Spec{Regs: []Reg{mkReg("Leaf_K0_a", godi.Scoped), mkReg("PosA_1_1", life, withAs("IK1", "IA")), rm([]string{"IK1", "IA"}[which], "")}},
+				&Spec{Regs: []Reg{mkReg("Leaf_K0_a", godi.Scoped, withName("k")), mkReg("InU_1_1_Keyed", life, withAs("IK1", "IB"), withName("k2")), rm([]string{"IK1", "IB"}[which], "k2")}},
+				&Spec{Regs: []Reg{mkReg("Leaf_K0_a", godi.Scoped, withGroup("g")), mkReg("InU_1_1_Group", life, withAs("IK1", "IA")), rm([]string{"IK1", "IA"}[which], "")}},
+				// control: only scoped services depend on scoped ones
+				&Spec{Regs: []Reg{mkReg("Leaf_K0_a", godi.Scoped), mkReg("MR_K2K3e", godi.Scoped), rm(mr, "")}},
+			)
+		}
+	}
+	for _, s := range directed {
+		idx, mine2 := cr.next()
+		if !mine2 {
+			continue
+		}
+		m := NewModel(s)
+		c.R.Begin(idx)
+		exec(idx, s, m, "directed-remove", false)
+		c.R.End(idx, eng.Hash("c07-directed", s.Canon()), true)
 	}
 	// --- random larger sets (both classes) ---
 	n := c.Pick(600, 20000)
